@@ -79,7 +79,7 @@ def declare(reg):
     # grammar-model nodes are opaque objects; attributes are uninterpreted functions of the node
     for attr, srt in {'exp': 'opaque:Model', 'sep': 'opaque:Model', 'name': 'str', 'token': 'str', 'pattern': 'str',
                       'literal': 'Val', 'sequence': 'seq[opaque:Model]', 'options': 'seq[opaque:Model]',
-                      'expectingstr': 'str', '_rule': 'optopaque:Model', 'rhs': 'opaque:Model'}.items():
+                      'expectingstr': 'str', '_rule': 'optopaque:Model', 'rhs': 'opaque:Model', '_exp': 'optopaque:Model'}.items():
         reg.opaque_attrs[('Model', attr)] = ('attr', srt)
     reg.opaque_attrs[('Model', '_parse')] = ('method', 'PARSE')
     reg.opaque_attrs[('Model', 'is_nullable')] = ('ufmethod', 'uf_is_nullable:bool')
@@ -97,7 +97,7 @@ def declare(reg):
     reg.class_alias = {
         'ParseState': 'Frame', 'AST': 'ASTD', 'Alert': 'AlertR', 'RuleInfo': 'RuleInfoR',
         'MemoKey': 'MemoKeyR', 'RuleResult': 'RuleResultR', 'ParseStateStack': 'States',
-        'TextLinesCursor': 'Cursor', 'ParserConfig': 'ConfigR', 'ParseInfo': 'ParseInfoR',
+        'TextLinesCursor': 'Cursor', 'ParserConfig': 'ConfigR', 'ParseInfo': 'ParseInfoR', 'ChoiceContext': 'ChoiceCtx',
     }
     reg.record_defaults = {'AlertR': {'level': 1, 'message': ''}}
 
@@ -133,7 +133,8 @@ def declare(reg):
                               'wf': ['0 <= self.pos', 'self.pos <= self.len']}
     # the object generated code collects the options of a choice in (`with ctx.choice() as ch: @ch.option ...`)
     reg.classes['ChoiceCtx'] = {'mro': ['tatsu/contexts/ctxlib/choice.py:ChoiceContext', 'tatsu/contexts/ctxlib/_base.py:ContextBase'],
-                                'fields': {'options': 'seq[func:PARSE]', 'expected': 'seq[str]'}}
+                                'fields': {'options': 'seq[func:PARSE]', 'expected': 'seq[str]'},
+                                'untracked': ['ctx', 'result'], 'isa': ['ChoiceContext', 'ContextBase']}
     reg.classes['LineInfo'] = {'mro': ['tatsu/input/infos.py:LineInfo'], 'isa': ['LineInfo']}
     reg.classes['LineIndexInfo'] = {'mro': ['tatsu/input/infos.py:LineIndexInfo'], 'isa': ['LineIndexInfo']}
     reg.classes['Cursor'] = {
@@ -165,6 +166,8 @@ def declare(reg):
                            'fields': {'dkeys': 'strset', 'dvals': 'strmap', 'cvals': 'strmap'},
                            'isa': ['Config', 'ParserConfig', 'ConfigR'], 'attrview': True,
                            'wf': ["self.dkeys['grammar']", "self.dkeys['name']"]}  # fields of every ParserConfig
+    # a semantics object seen as its attribute table (C06: the action is looked up by name)
+    reg.classes['SemD'] = {'mro': [], 'fields': {'dkeys': 'strset', 'dvals': 'strmap'}, 'attrview': True}
     reg.classes['ConfigR'] = {'mro': ['tatsu/config.py:ParserConfig', 'tatsu/util/configs.py:Config'], 'isa': ['ParserConfig', 'Config']}
     reg.classes['RuleInfoR'] = {'mro': ['tatsu/contexts/infos.py:RuleInfo'], 'isa': ['RuleInfo']}
     reg.classes['MemoKeyR'] = {'mro': ['tatsu/contexts/infos.py:MemoKey'], 'isa': ['MemoKey']}
